@@ -217,6 +217,8 @@ def cache_type(method: Method) -> Method:
     @wraps(method)
     def wrapper(self: "SchemaBuilder", *args, **kwargs):
         factory = method(self, *args, **kwargs)
+        # A type visited as a flattened field has its own resolvers and cannot be shared
+        flattened = getattr(self, "get_flattened", None) is not None
 
         @wraps(factory.factory)
         def name_cache(
@@ -228,13 +230,14 @@ def cache_type(method: Method) -> Method:
             # Method is in cache key because scalar types will have the same method,
             # and then be shared by both visitors, while input/output types will have
             # their own cache entry.
-            if (name, method, description) in self._cache_by_name:
-                tp, cached_args = self._cache_by_name[(name, method, description)]
+            cache_key = (name, method, description, flattened)
+            if cache_key in self._cache_by_name:
+                tp, cached_args = self._cache_by_name[cache_key]
                 if cached_args == (args, kwargs):
                     return tp
             tp = graphql.GraphQLNonNull(factory.factory(name, description))
             # Don't put args in cache in order to avoid hashable issue
-            self._cache_by_name[(name, method, description)] = (tp, (args, kwargs))
+            self._cache_by_name[cache_key] = (tp, (args, kwargs))
             return tp
 
         return replace(factory, factory=name_cache)
@@ -264,7 +267,7 @@ class SchemaBuilder(
         self.id_type = id_type
         self.is_id = is_id or (lambda t: False)
         self._cache_by_name: Dict[
-            Tuple[str, Callable, Optional[str]],
+            Tuple[str, Callable, Optional[str], bool],
             Tuple[graphql.GraphQLNonNull, Tuple[tuple, dict]],
         ] = {}
 
@@ -608,6 +611,14 @@ class OutputSchemaBuilder(
 
             return cast(Func, resolve_wrapper)
 
+    def _visit_field_type(
+        self, tp: AnyType, conversion: Optional[AnyConversion]
+    ) -> TypeFactory[graphql.GraphQLOutputType]:
+        # The value of a field is not flattened, even when the field's class is
+        with context_setter(self):
+            self.get_flattened = None
+            return self.visit_with_conv(tp, conversion)
+
     def _field(self, tp: AnyType, field: ObjectField) -> Lazy[graphql.GraphQLField]:
         field_name = field.name
         partial_serialize = self._field_serialization_method(field).serialize
@@ -616,7 +627,7 @@ class OutputSchemaBuilder(
         def resolve(obj, _):
             return partial_serialize(getattr(obj, field_name))
 
-        factory = self.visit_with_conv(field.type, field.serialization)
+        factory = self._visit_field_type(field.type, field.serialization)
         field_schema = get_field_schema(tp, field)
         return lambda: graphql.GraphQLField(
             factory.type,
@@ -687,7 +698,9 @@ class OutputSchemaBuilder(
                     )
 
                 args[self.aliaser(param_field.alias)] = arg_thunk
-        factory = self.visit_with_conv(field.types["return"], field.resolver.conversion)
+        factory = self._visit_field_type(
+            field.types["return"], field.resolver.conversion
+        )
         field_schema = get_method_schema(tp, field.resolver)
         return lambda: graphql.GraphQLField(
             factory.type,
